@@ -98,8 +98,12 @@ ENC_TREE_RUN = dict(
     model="enctree", sub="enctree", driver="enctree",
     quick=["-n", "4000"], thorough=["-n", "150000"], search=["-n", "30000"],
 )
+ENC_TAG_RUN = dict(
+    model="enctag", sub="enctag", driver="enctag",
+    quick=["-n", "4000"], thorough=["-n", "150000"], search=["-n", "30000"],
+)
 ENC_ASSUME = [
-    "the Lean models cover tag resolution for every tag string / override map, Process on pointers to flat structs (M7) and Process on nested value trees of structs, pointers, interface-held values, slices, slices of slices and untagged maps with addressability (M7t, tied by the enctree correspondence on run-time-built Go types); Taggable values, IgnoreTypes and deeper exotic shapes are decided on the implementation by the canary oracle; wrapper-value (wrapperspb / structpb) fields are not exercised",
+    "the Lean models cover tag resolution for every tag string / override map, Process on pointers to flat structs (M7) and Process on nested value trees of structs, pointers, interface-held values, slices, slices of slices and untagged maps with addressability (M7t, tied by the enctree correspondence on run-time-built Go types) and Process on Taggable map payloads with pointer tags through nested maps and pointers to maps (M7g, enctag correspondence); pointer tags through slices / structs, Taggable values below the payload, IgnoreTypes and deeper exotic shapes are decided on the implementation by the canary oracle; wrapper-value (wrapperspb / structpb) fields are not exercised",
     "every produced value is canonicalised by independent code: AEAD Decrypt with each candidate key (go-kms-wrapping), HKDF (x/crypto) + HMAC-SHA256 recomputation",
     "copystructure / pointerstructure / reflect settability as observed through the correspondence",
 ]
@@ -247,14 +251,15 @@ PROPS = {
     ),
     "C09": dict(
         module="Evl.Props.C09",
-        theorems=["Evl.C09.tag_secure", "Evl.C09.unknown_redacted", "Evl.C09.action_keep_iff", "Evl.C09.filterLeaf_noleak", "Evl.C09.filterOne_noleak", "Evl.C09.filterElems_noleak", "Evl.C09.slice_noleak", "Evl.C09.flat_noleak", "Evl.C09.fail_closed", "Evl.C09.tree_noleak", "Evl.C09.tree_fail_closed"],
-        runs=[ENC_RUN, ENC_TREE_RUN], oracle_prefixes=["C09"], models=["M7 Encrypt (tag resolution, flat structs)", "M7t EncryptTree (nested values)"],
+        theorems=["Evl.C09.tag_secure", "Evl.C09.unknown_redacted", "Evl.C09.action_keep_iff", "Evl.C09.filterLeaf_noleak", "Evl.C09.filterOne_noleak", "Evl.C09.filterElems_noleak", "Evl.C09.slice_noleak", "Evl.C09.flat_noleak", "Evl.C09.fail_closed", "Evl.C09.tree_noleak", "Evl.C09.tree_fail_closed",
+                  "Evl.C09.tagged_noleak", "Evl.C09.untagged_key_redacted", "Evl.C09.tagged_fail_closed", "Evl.C09.bad_tag_stops", "Evl.C09.misspelt_pointer_tag_fails", "Evl.C09.pointer_tag_secure", "Evl.C09.tagAction_keep_iff"],
+        runs=[ENC_RUN, ENC_TREE_RUN, ENC_TAG_RUN], oracle_prefixes=["C09"], models=["M7 Encrypt (tag resolution, flat structs)", "M7t EncryptTree (nested values)", "M7g EncryptTag (Taggable maps, pointer tags)"],
         trusted_base=TB_COMMON, assumptions=ENC_ASSUME, rule=ENC_RULE,
     ),
     "C10": dict(
         module="Evl.Props.C10",
-        theorems=["Evl.C10.shape", "Evl.C10.filterElems_length", "Evl.C10.length_preserved", "Evl.C10.identity", "Evl.C10.tree_shape", "Evl.C10.tree_identity"],
-        runs=[ENC_RUN, ENC_TREE_RUN], oracle_prefixes=["C10"], models=["M7 Encrypt (flat structs)", "M7t EncryptTree (nested values)"],
+        theorems=["Evl.C10.shape", "Evl.C10.filterElems_length", "Evl.C10.length_preserved", "Evl.C10.identity", "Evl.C10.tree_shape", "Evl.C10.tree_identity", "Evl.C10.tagged_public_preserved", "Evl.C10.tagged_identity"],
+        runs=[ENC_RUN, ENC_TREE_RUN, ENC_TAG_RUN], oracle_prefixes=["C10"], models=["M7 Encrypt (flat structs)", "M7t EncryptTree (nested values)", "M7g EncryptTag (Taggable maps, pointer tags)"],
         trusted_base=TB_COMMON, assumptions=ENC_ASSUME + ["partial: 'the input is not modified' is decided by the deep before/after snapshot comparison of the harness on every case; Go-level aliasing is outside the value model"],
         rule=ENC_RULE,
     ),
